@@ -101,7 +101,9 @@ def canaries(chk, names, timeout=300):
 
 def corpus(chk, name, consts, view="ViewT", simulate=None, depth=None, timeout=900, workers=None):
     cfg = make_cfg("SpecCorpus", consts, [], [], view=None if simulate else view)
-    r = run_tlc(MODULE, name + ".cfg", cfg_text=cfg, timeout=timeout, workers=1 if simulate else (workers or 4),
+    # one worker: with a VIEW that hides the history, which history reaches a state first (and whether it
+    # still has steps left within MaxOps) must not depend on the interleaving of workers
+    r = run_tlc(MODULE, name + ".cfg", cfg_text=cfg, timeout=timeout, workers=workers or 1,
                 simulate=simulate, depth=depth, seed_=vlib.seed() if simulate else None)
     if simulate:
         chk.cov["tlc_runs"].append({"config": name, "mode": "simulate", "walks": simulate, "depth": depth,
@@ -209,7 +211,9 @@ def judge(chk, res, hs, profile, stats):
                 break
         if covered:
             for kf in covered:
-                chk.known.append((kf["id"], "%s [%s]" % (kf["what"], kf["id"])))
+                stats["known"][kf["id"]] = stats["known"].get(kf["id"], 0) + 1
+                if stats["known"][kf["id"]] == 1:
+                    chk.known.append((kf["id"], "%s [%s]" % (kf["what"], kf["id"])))
             continue
         stats["reported"] += 1
         if stats["reported"] <= 25:
@@ -281,7 +285,7 @@ def run(tier):
 
     # 3. binding: replay on the real gateway in several concrete configurations
     profiles = [PROFILES[0], PROFILES[1], PROFILES[2 + vlib.seed() % 2]] if quick else PROFILES
-    stats = {"divergences": 0, "reported": 0, "by_kind": {}, "geom": geom}
+    stats = {"divergences": 0, "reported": 0, "by_kind": {}, "known": {}, "geom": geom}
     totals = {"histories": 0, "steps": 0, "checks": 0, "requests": 0, "abandoned": 0, "resyncs": 0, "outcomes": {}, "shapes": {}}
     for i, prof in enumerate(profiles):
         prof = dict(prof, variant=vlib.seed() * 100 + i)
@@ -293,7 +297,7 @@ def run(tier):
                                                           "steps": res.get("steps", 0), "comparisons": res.get("checks", 0)})
     chk.cov["traces_validated_against_impl"] = totals["histories"]
     chk.cov["evaluations"] = totals["checks"]
-    chk.cov["replay"] = dict(totals, divergences=stats["divergences"], divergences_by_kind=stats["by_kind"], corpus_records=n_records + len(walks))
+    chk.cov["replay"] = dict(totals, divergences=stats["divergences"], divergences_by_kind=stats["by_kind"], divergences_attributed_to_known_findings=stats["known"], corpus_records=n_records + len(walks))
     chk.cov["canaries_caught"] = caught
     if totals["histories"] == 0 or totals["requests"] == 0:
         chk.infra.append("vacuous: no history was replayed")
